@@ -73,6 +73,9 @@ func C03(c *core.Ctx) {
 	for _, m := range typeMembers(c.Tier, sized) {
 		ms = append(ms, m)
 	}
+	// compositions: the merged struct (not interface{}) carries every branch's typed fields
+	ms = append(ms, allOfMembers(cfg)...)
+	ms = append(ms, anyOfMembers(c.Tier, cfg)...)
 	// bounded integers under --min-sized-ints in nullable positions
 	for _, pos := range []string{"nullable-required", "nullable-optional", "required", "optional"} {
 		sp := &fam.Spec{Kind: "integer", Kw: []string{"minimum", "maximum"}}
@@ -95,5 +98,7 @@ func C03(c *core.Ctx) {
 		})
 	}
 	ruleMultiSel(c, ruleSet("A-MAP", "A-REJ", "A-NOEXTRA", "A-REQ"), 2, "allOf branch in two files", "differing only in the target of a nested reference")
+	// which declaration a same-named schema is bound to decides which constraints validate it (A-DEDUP)
+	ruleDedup(c)
 	c.Floor("families", c.Counts["members"], 150, "family members")
 }
